@@ -24,8 +24,8 @@ from mininec.mininec import main, Mininec, Angle
 PID = 'C05'
 ROTS = [(0, 0, 33.0), (90.0, 0, 0), (0, -71.0, 0), (33.0, -71.0, 123.0), (10.0, 20.0, 0), (0, 45.0, -30.0), (180.0, 0, 90.0)]
 ZROTS = [(0, 0, 33.0), (0, 0, -120.0), (0, 0, 200.0)]
-TRAS = [(1.5, -2.25, 0.75), (0, 0, 40.0), (100.0, -300.0, 7.0), (-0.3, 0, 0)]
-HTRAS = [(1.5, -2.25, 0), (100.0, -300.0, 0), (-0.3, 0, 0)]
+TRAS = [(1.5, -2.25, 0.75), (0, 0, 40.0), (100.0, -300.0, 7.0), (-0.3, 0, 0), (650.0, 0, 0), (-40.0, 900.0, 0.5)]
+HTRAS = [(1.5, -2.25, 0), (100.0, -300.0, 0), (-0.3, 0, 0), (650.0, 0, 0), (-40.0, 900.0, 0)]
 SCLS = [0.01, 0.37, 37.0, 100.0, 2.5]
 
 GEO_BASE = ['-w', '1,5,0.3,0.2,1.0,2.1,0.4,1.6,0.002', '-a', '2,6,1.4,10,150,0.0015',
@@ -33,12 +33,14 @@ GEO_BASE = ['-w', '1,5,0.3,0.2,1.0,2.1,0.4,1.6,0.002', '-a', '2,6,1.4,10,150,0.0
 # a fat tapered wire (the 2.5 r bound of the taper is active) and a D loop (half circle closed by a wire)
 GEO_BASE2 = ['-w', '1,8,0.3,0.2,3.0,1.5,0.4,3.6,0.06', '--taper-wire=1,1', '-a', '2,6,1.5,0,180,0.0015',
              '-w', '3,5,1.5,0,0,-1.5,0,0,0.001']
+# (wire 4 is a parasitic element whose end stays 3 mm / 4 mm = several matching tolerances away from the free end of
+#  wire 3, along x resp. y: the two must remain unconnected wherever the antenna is moved)
 PHYS_FREE = ['-w', '1,4,0,0,10,3.0,0,10.6,0.002', '-w', '2,3,3.0,0,10.6,3.2,2.1,11.5,0.002',
-             '-w', '3,3,0,0,10,-1.2,0.4,7.6,0.0015', '--excitation-pulse=2,1',
-             '--load=30+20j', '--attach-load=1,1,2']
+             '-w', '3,3,0,0,10,-1.2,0.4,7.6,0.0015', '-w', '4,3,-1.203,0.4,7.6,-3.0,0.4,7.9,0.0015',
+             '--excitation-pulse=2,1', '--load=30+20j', '--attach-load=1,1,2']
 PHYS_GND = ['-w', '1,4,0,0,0,0.9,0,3.1,0.002', '-w', '2,3,0.9,0,3.1,3.3,0.8,3.3,0.002',
-            '-w', '3,3,5,5,1.2,5.5,7.2,2.0,0.0015', '--medium=0,0,0', '--excitation-pulse=1,1',
-            '--load=30+20j', '--attach-load=1,1,2']
+            '-w', '3,3,5,5,1.2,5.5,7.2,2.0,0.0015', '-w', '4,3,5.5,7.204,2.0,5.5,9.0,2.4,0.0015',
+            '--medium=0,0,0', '--excitation-pulse=1,1', '--load=30+20j', '--attach-load=1,1,2']
 F0 = 21.2
 
 
@@ -155,6 +157,8 @@ def physics_check(rec, rnd, ground):
     m1, msg = run_main(base + argv + ['-f', repr(F0 / s_tot)])
     if not isinstance(m1, Mininec):
         return [dict(what='rejected', msg=msg[:200])], argv
+    if len(m1.pulses) != len(m0.pulses):
+        return [dict(what='number-of-unknowns-changed-by-motion', base=len(m0.pulses), moved=len(m1.pulses))], argv
     m0.compute(); m1.compute()
     tol = tol_for(max(np.linalg.cond(m0.Z), np.linalg.cond(m1.Z)))
     if tol is None:
